@@ -73,6 +73,10 @@ class ImmutableKnotVector(tuple):
         return instance
 
     def __add__(self, nodes: Tuple[float]) -> ImmutableKnotVector:
+        umin, umax = self.limits
+        for node in nodes:
+            if node < umin or umax < node:
+                raise ValueError("Cannot insert nodes outside the interval")
         return self.__class__(sorted(list(self) + list(nodes)))
 
     def __sub__(self, nodes: Tuple[float]) -> ImmutableKnotVector:
